@@ -87,4 +87,15 @@ PROPS["C08"] = {
                     "interleavings below call granularity are not modelled"],
 }
 
+PROPS["C07"] = {
+    "families": ["C07"],
+    "nontrivial": lambda line, out: ("ok:" in out) or (not out.startswith(("bad", "err"))),
+    "rule": "resources/model.bin and 41 (quick) / 1501 (thorough) generated models (empty tables, 4-byte strings, extreme i32, "
+            "255 windows, tag models): bytes of to_vec compared byte for byte; read_slice and read on EVERY proper prefix "
+            "(incl. shorter than the header), with trailing bytes, with every header byte mutated; readers and writers failing "
+            "at sampled (quick) / all (thorough) byte positions; non-trivial = distinct case in which some read/write succeeded or bytes were produced",
+    "scopes": {"quick": "every truncation point of every generated file", "thorough": "every truncation point and every fault position"},
+    "assumptions": ["bincode's derive order and primitive encodings are as modelled (the model's bytes are compared with the real ones)"],
+}
+
 SETUP_EXTRA = []
